@@ -165,8 +165,8 @@ func (s *sched) quiesce() int {
 	// plain reports whether a non-quiescing goroutine other than x can run.
 	plain := func(x *gor) bool {
 		for _, h := range s.gs {
-			if h.done || h == x || h.quiescing {
-				continue
+			if h.done || h == x || h == g || h.quiescing {
+				continue // (g itself is waiting from now on)
 			}
 			if h.ready == nil || h.ready() {
 				return true
@@ -176,6 +176,11 @@ func (s *sched) quiesce() int {
 	}
 	s.qseq++
 	g.qdepth = s.qseq
+	if g.id == 0 {
+		// The harness's main goroutine is always the outermost waiter, also when a preemption
+		// let a hook inside another goroutine enter its own (nested) quiesce first.
+		g.qdepth = 0
+	}
 	// others reports whether anything else can make progress before g should
 	// continue: a non-quiescing goroutine, or a goroutine that entered quiesce
 	// after g (nested) and whose own wait is over.
